@@ -1088,49 +1088,7 @@ func c04VariableUsesFoundAtEveryDepth(r *fw.Run) {
 		}
 		return true
 	})
-	descends := map[string]bool{}
-	covered := map[string]bool{}
-	for _, fi := range p.Funcs("astvalidation") {
-		if !strings.HasPrefix(fi.Name(), vt+".") {
-			continue
-		}
-		info := fi.Info()
-		// a comparison with the constant recognises variable values as well as a switch arm does
-		fw.WalkAll(fi.Decl.Body, func(nd ast.Node) bool {
-			if b, ok := nd.(*ast.BinaryExpr); ok {
-				for _, e := range []ast.Expr{b.X, b.Y} {
-					if k := fw.ConstObj(info, e); k != nil && k.Name() == "ValueKindVariable" {
-						covered["ValueKindVariable"] = true
-					}
-				}
-			}
-			return true
-		})
-		for _, sw := range fw.ConstSwitches(fi, kindT) {
-			for _, c := range sw.Stmt.(*ast.SwitchStmt).Body.List {
-				cc := c.(*ast.CaseClause)
-				rec := false
-				for _, st := range cc.Body {
-					fw.WalkAll(st, func(nd ast.Node) bool {
-						if call, ok := nd.(*ast.CallExpr); ok {
-							if callee := p.FuncOf(fw.Callee(info, call)); callee != nil && strings.HasPrefix(callee.Name(), vt+".") {
-								rec = true
-							}
-						}
-						return true
-					})
-				}
-				for _, e := range cc.List {
-					if k := fw.ConstObj(info, e); k != nil {
-						covered[k.Name()] = true
-						if rec {
-							descends[k.Name()] = true
-						}
-					}
-				}
-			}
-		}
-	}
+	covered, descends := valueKindArmsOfVisitor(p, "astvalidation", vt)
 	r.Check(covered["ValueKindVariable"], "C04-R14", "AllVariableUsesDefined/variable-arm", p.Pos(ctor.Decl.Pos()), "the visitor of AllVariableUsesDefined has an arm for variable values", "no arm for ValueKindVariable was found in "+vt+": the rule no longer recognises a variable use")
 	r.Check(descends["ValueKindList"] && descends["ValueKindObject"], "C04-R14", "AllVariableUsesDefined/container-kinds-descended", p.Pos(ctor.Decl.Pos()), "the visitor of AllVariableUsesDefined descends into list and object literals",
 		vt+" does not descend into both container kinds (List, Object): `{ arg(c: [$undef]) }` / `{ arg(c: {x: $undef}) }` with `scalar Custom` — a literal no other rule looks into — is admitted with a variable the operation does not define, and reaches planning with a dangling variable")
